@@ -13,22 +13,31 @@ Fixpoint increasing (prev : option N) (its : list (N * list byte)) : Prop :=
   end.
 Definition wf_items (k : item) (its : list (N * list byte)) : Prop :=
   Forall (wf_item k) its /\ (ordered k = true -> increasing None its) /\ (k = I_cstr -> its <> []).
-Definition wf_fld (f : fld) (v : fval) (last : bool) : Prop :=
+Definition wf_fld (f : fld) (v : fval) : Prop :=
   match f, v with
   | F_be n, V_int x => x < 256 ^ N.of_nat n
   | F_ver0, V_int x => x = 0
   | F_name _, V_name ls => wf_labels ls /\ labels_len ls <= 254
   | F_cstr, V_bytes bs => len bs <= 255
-  | F_rest, V_bytes bs => last = true
-  | F_items k, V_items its => last = true /\ wf_items k its
+  | F_rest, V_bytes bs => True
+  | F_items k, V_items its => wf_items k its
   | _, _ => False
   end.
 Fixpoint wf_vals (lay : layout) (vs : list fval) : Prop :=
   match lay, vs with
   | [], [] => True
-  | f :: r, v :: vr => wf_fld f v (match r with [] => true | _ => false end) /\ wf_vals r vr
+  | f :: r, v :: vr => wf_fld f v /\ wf_vals r vr
   | _, _ => False
   end.
+(* a field that consumes the rest of the data may only come last *)
+Definition ends_fld (f : fld) : bool := match f with F_rest | F_items _ => true | _ => false end.
+Fixpoint lay_ok (lay : layout) : bool :=
+  match lay with
+  | [] => true
+  | [f] => true
+  | f :: r => negb (ends_fld f) && lay_ok r
+  end.
+Definition ends_data (lay : layout) : bool := existsb ends_fld lay.
 
 (* ================= names: cursor facts ================= *)
 Lemma inplace_le d p e : inplace d p e -> forall ls, rfc_bw d p ls -> p < e <= len d.
@@ -229,13 +238,10 @@ Proof.
   - rewrite (sort_items_increasing its None); [reflexivity|]. apply Ho. reflexivity.
 Qed.
 
-Definition ends_data (lay : layout) : bool :=
-  existsb (fun f => match f with F_rest | F_items _ => true | _ => false end) lay.
-
-Lemma parse_fld_enc : forall f v pre post last, wf_fld f v last -> (last = true -> ends_data [f] = true -> post = []) ->
+Lemma parse_fld_enc : forall f v pre post, wf_fld f v -> (ends_fld f = true -> post = []) ->
   parse_fld f (pre ++ enc_fld f v ++ post) (len pre) = Ok (v, len pre + len (enc_fld f v)).
 Proof.
-  intros f v pre post last Hwf Hpost.
+  intros f v pre post Hwf Hpost.
   destruct f as [n| |c| | |k]; destruct v as [x|ls|bs|its]; cbn [wf_fld] in Hwf; try contradiction; cbn [parse_fld enc_fld].
   - rewrite be_at_here. rewrite N.mod_small by exact Hwf. rewrite len_be_enc. reflexivity.
   - subst x. rewrite be_at_here. cbn. reflexivity.
@@ -250,33 +256,40 @@ Proof.
     destruct ((255 <? len bs) || (len pre + 1 + (len bs + len post) <? len bs + len pre + 1)) eqn:E2; [lia|].
     replace (len pre + 1) with (len (pre ++ [bN (len bs)])) by (rewrite len_app; cbn; lia).
     rewrite bytes_at_here. f_equal. f_equal. unfold len. rewrite ?app_length. cbn [length]. lia.
-  - subst last. rewrite (Hpost eq_refl eq_refl). rewrite !app_nil_r.
+  - rewrite (Hpost eq_refl). rewrite !app_nil_r.
     replace (len (pre ++ bs) - len pre) with (len bs) by (rewrite len_app; lia).
     pose proof (bytes_at_here pre bs []) as B. rewrite !app_nil_r in B. rewrite B.
     rewrite len_app. destruct (len pre <=? len pre + len bs) eqn:E; [|lia]. reflexivity.
-  - destruct Hwf as [-> Hwi]. rewrite (Hpost eq_refl eq_refl). rewrite app_nil_r.
-    rewrite (enc_items_concat k its Hwi). destruct Hwi as (Hf & Ho & Hn).
+  - rewrite (Hpost eq_refl). rewrite app_nil_r.
+    rewrite (enc_items_concat k its Hwf). destruct Hwf as (Hf & Ho & Hn).
     rewrite parse_items_enc; [reflexivity|exact Hf|exact Ho|].
     pose proof (length_concat_ge k its Hf). rewrite app_length. lia.
 Qed.
 
-Theorem layout_roundtrip : forall lay vs pre post, wf_vals lay vs -> (ends_data lay = true -> post = []) ->
+Lemma lay_ok_tail f r : lay_ok (f :: r) = true -> lay_ok r = true /\ (r <> [] -> ends_fld f = false).
+Proof.
+  destruct r as [|g r']; [intros _; split; [reflexivity|intros Hne; congruence]|].
+  cbn [lay_ok]. intros H. apply andb_prop in H. destruct H as [H1 H2]. split; [exact H2|]. intros _.
+  destruct (ends_fld f); [discriminate|reflexivity].
+Qed.
+
+Theorem layout_roundtrip : forall lay vs pre post, lay_ok lay = true -> wf_vals lay vs -> (ends_data lay = true -> post = []) ->
   parse_layout lay (pre ++ enc_layout lay vs ++ post) (len pre) = Ok (vs, len pre + len (enc_layout lay vs)).
 Proof.
-  induction lay as [|f r IH]; intros vs pre post Hwf Hpost; destruct vs as [|v vr]; cbn [wf_vals] in Hwf; try contradiction.
+  induction lay as [|f r IH]; intros vs pre post Hok Hwf Hpost; destruct vs as [|v vr]; cbn [wf_vals] in Hwf; try contradiction.
   - cbn. f_equal. f_equal. unfold len; cbn; lia.
-  - destruct Hwf as [Hf Hr]. cbn [enc_layout parse_layout].
+  - destruct Hwf as [Hf Hr]. cbn [enc_layout parse_layout]. destruct (lay_ok_tail f r Hok) as [Hokr Hlast].
     assert (Hstep : parse_fld f (pre ++ (enc_fld f v ++ enc_layout r vr) ++ post) (len pre)
                     = Ok (v, len pre + len (enc_fld f v))).
     { rewrite <- app_assoc. eapply parse_fld_enc; [exact Hf|].
-      intros Hlast He. destruct r as [|f' r']; [|discriminate].
+      intros He. destruct r as [|f' r']; [|rewrite Hlast in He by discriminate; discriminate].
       destruct vr; cbn [wf_vals] in Hr; try contradiction. cbn [enc_layout app].
-      apply Hpost. cbn [ends_data existsb] in *. exact He. }
+      apply Hpost. cbn [ends_data existsb]. rewrite He. reflexivity. }
     rewrite Hstep.
     replace (pre ++ (enc_fld f v ++ enc_layout r vr) ++ post) with ((pre ++ enc_fld f v) ++ enc_layout r vr ++ post)
       by (rewrite <- !app_assoc; reflexivity).
     replace (len pre + len (enc_fld f v)) with (len (pre ++ enc_fld f v)) by (rewrite len_app; reflexivity).
-    rewrite IH; [|exact Hr|].
+    rewrite IH; [|exact Hokr|exact Hr|].
     + rewrite !len_app. do 2 f_equal. lia.
     + intros H. apply Hpost. cbn [ends_data existsb]. unfold ends_data in H. rewrite H. apply orb_true_r.
 Qed.
@@ -289,22 +302,203 @@ Proof.
   rewrite len_app, len_enc_item, IH. reflexivity.
 Qed.
 
-Lemma len_enc_fld : forall f v last, wf_fld f v last -> len (enc_fld f v) = len_fld f v.
+Lemma len_enc_fld : forall f v, wf_fld f v -> len (enc_fld f v) = len_fld f v.
 Proof.
-  intros f v last H. destruct f as [n| |c| | |k]; destruct v as [x|ls|bs|its]; cbn [wf_fld] in H; try contradiction;
+  intros f v H. destruct f as [n| |c| | |k]; destruct v as [x|ls|bs|its]; cbn [wf_fld] in H; try contradiction;
     cbn [enc_fld len_fld].
   - apply len_be_enc.
   - apply len_be_enc.
   - apply len_write_name.
   - rewrite len_cons. lia.
   - reflexivity.
-  - destruct H as [_ Hw]. rewrite (enc_items_concat k its Hw). rewrite len_concat_items.
-    destruct Hw as (_ & _ & Hn). unfold len_items. destruct k; try reflexivity.
+  - rewrite (enc_items_concat k its H). rewrite len_concat_items.
+    destruct H as (_ & _ & Hn). unfold len_items. destruct k; try reflexivity.
     destruct its; [exfalso; apply Hn; reflexivity|reflexivity].
 Qed.
 
 Theorem len_enc_layout : forall lay vs, wf_vals lay vs -> len (enc_layout lay vs) = len_layout lay vs.
 Proof.
   induction lay as [|f r IH]; intros vs H; destruct vs as [|v vr]; cbn [wf_vals] in H; try contradiction; [reflexivity|].
-  destruct H as [Hf Hr]. cbn [enc_layout len_layout]. rewrite len_app, (len_enc_fld _ _ _ Hf), (IH _ Hr). reflexivity.
+  destruct H as [Hf Hr]. cbn [enc_layout len_layout]. rewrite len_app, (len_enc_fld _ _ Hf), (IH _ Hr). reflexivity.
 Qed.
+
+(* ================= image of the parsers: whatever is accepted is well-formed ================= *)
+Lemma be_at_bound d p n v : be_at d p n = Some v -> v < 256 ^ N.of_nat n /\ p + N.of_nat n <= len d.
+Proof.
+  unfold be_at. destruct (bytes_at d p (N.of_nat n)) as [bs|] eqn:E; [|discriminate]. cbn. intros H. injection H as <-.
+  apply bytes_at_len in E. destruct E as [E1 E2]. pose proof (be_dec_bound bs 0) as B. rewrite E2 in B. split; lia.
+Qed.
+
+Lemma parse_item_sound k d p prev it p' : parse_item k d p prev = Ok (it, p') ->
+  wf_item k it /\ (ordered k = true -> match prev with Some q => q < fst it | None => True end).
+Proof.
+  unfold parse_item. destruct (be_at d p (tagw k)) as [tag|] eqn:Et; [|discriminate].
+  destruct (be_at d (p + N.of_nat (tagw k)) (lenw k)) as [l|] eqn:El; [|discriminate].
+  destruct (ordered k && match prev with Some q => tag <=? q | None => false end) eqn:Eo; [destruct k; discriminate|].
+  destruct (bytes_at d (p + N.of_nat (tagw k) + N.of_nat (lenw k)) l) as [bs|] eqn:Eb; [|destruct k; discriminate].
+  intros H. injection H as <- <-. unfold wf_item. cbn [fst snd]. apply be_at_bound in Et. apply be_at_bound in El. apply bytes_at_len in Eb.
+  split; [split; [tauto|]|].
+  - destruct Eb as [_ Eb]. rewrite Eb. tauto.
+  - intros Ho. rewrite Ho in Eo. destruct prev as [q|]; [|exact I]. cbn in Eo. lia.
+Qed.
+
+Lemma parse_items_sound : forall fuel k d p prev its p', parse_items fuel k d p prev = Ok (its, p') ->
+  Forall (wf_item k) its /\ (ordered k = true -> increasing prev its) /\ (p < len d -> its <> []).
+Proof.
+  induction fuel as [|f IH]; intros k d p prev its p' H; cbn [parse_items] in H; [discriminate|].
+  destruct (len d <=? p) eqn:E.
+  - injection H as <- <-. split; [constructor|]. split; [intros _; exact I|lia].
+  - destruct (parse_item k d p prev) as [[it p1]|e|s|] eqn:Ei; try discriminate.
+    destruct (parse_items f k d p1 (Some (fst it))) as [[r p2]|e|s|] eqn:Er; try discriminate.
+    injection H as <- <-. apply parse_item_sound in Ei. destruct Ei as [Hw Ho].
+    destruct (IH _ _ _ _ _ _ Er) as (Hf & Hi & _).
+    split; [constructor; assumption|]. split; [|discriminate].
+    intros Hk. cbn [increasing]. split; [apply Ho; exact Hk|apply Hi; exact Hk].
+Qed.
+
+(* an inner length that overruns the data is an error *)
+Lemma parse_item_overrun k d p prev tag l :
+  be_at d p (tagw k) = Some tag -> be_at d (p + N.of_nat (tagw k)) (lenw k) = Some l ->
+  len d < p + N.of_nat (tagw k) + N.of_nat (lenw k) + l -> exists e, parse_item k d p prev = Err e.
+Proof.
+  intros Ht Hl Ho. unfold parse_item. rewrite Ht, Hl.
+  destruct (ordered k && _); [eauto|]. rewrite bytes_at_none by lia. eauto.
+Qed.
+Lemma parse_cstr_overrun d p l : byte_at d p = Some l -> len d < p + 1 + l -> exists e, parse_cstr d p = Err e.
+Proof.
+  intros Hb Ho. unfold parse_cstr. destruct (len d <=? p); [eauto|]. rewrite Hb.
+  destruct ((255 <? l) || (len d <? l + p + 1)) eqn:E; [eauto|]. lia.
+Qed.
+
+Lemma parse_cstr_sound d p bs p' : parse_cstr d p = Ok (bs, p') -> len bs <= 255.
+Proof.
+  unfold parse_cstr. destruct (len d <=? p); [discriminate|].
+  destruct (byte_at d p) as [l|] eqn:Eb; [|discriminate].
+  destruct ((255 <? l) || (len d <? l + p + 1)) eqn:E; [discriminate|].
+  destruct (bytes_at d (p + 1) l) as [b|] eqn:E2; [|discriminate]. intros H. injection H as <- <-.
+  apply bytes_at_len in E2. lia.
+Qed.
+
+Definition no_txt (lay : layout) : bool := forallb (fun f => match f with F_items I_cstr => false | _ => true end) lay.
+
+Lemma parse_fld_image f d p v p' : parse_fld f d p = Ok (v, p') ->
+  (match f with F_items I_cstr => p < len d | _ => True end) -> wf_fld f v.
+Proof.
+  destruct f as [n| |c| | |k]; cbn [parse_fld]; intros H Hp.
+  - destruct (be_at d p n) as [x|] eqn:E; [|discriminate]. injection H as <- <-. cbn. apply be_at_bound in E. tauto.
+  - destruct (be_at d p 1) as [x|] eqn:E; [|discriminate]. destruct (x =? 0) eqn:E0; [|discriminate].
+    injection H as <- <-. cbn. lia.
+  - destruct (parse_name d p) as [[ls e]|e|s|] eqn:E; try discriminate. injection H as <- <-. cbn.
+    apply parse_name_sound in E. tauto.
+  - destruct (parse_cstr d p) as [[bs e]|e|s|] eqn:E; try discriminate. injection H as <- <-. cbn.
+    eapply parse_cstr_sound; eauto.
+  - destruct (bytes_at d p (len d - p)); [|discriminate]. destruct (p <=? len d); [|discriminate].
+    injection H as <- <-. exact I.
+  - destruct (parse_items (S (length d)) k d p None) as [[its e]|e|s|] eqn:E; try discriminate. injection H as <- <-.
+    cbn. apply parse_items_sound in E. destruct E as (Hf & Ho & Hn). split; [exact Hf|]. split; [exact Ho|].
+    intros ->. apply Hn. exact Hp.
+Qed.
+
+Theorem parse_layout_image : forall lay d p vs p', parse_layout lay d p = Ok (vs, p') ->
+  (no_txt lay = true \/ (lay = [F_items I_cstr] /\ p < len d)) -> wf_vals lay vs.
+Proof.
+  induction lay as [|f r IH]; intros d p vs p' H Hn; cbn [parse_layout] in H.
+  - injection H as <- <-. exact I.
+  - destruct (parse_fld f d p) as [[v p1]|e|s|] eqn:Ef; try discriminate.
+    destruct (parse_layout r d p1) as [[vr p2]|e|s|] eqn:Er; try discriminate. injection H as <- <-.
+    cbn [wf_vals]. split.
+    + eapply parse_fld_image; [exact Ef|]. destruct Hn as [Hn|[Hn Hp]].
+      * cbn [no_txt forallb] in Hn. apply andb_prop in Hn. destruct Hn as [Hn _].
+        destruct f as [| | | | |[]]; try exact I. discriminate.
+      * injection Hn as -> ->. exact Hp.
+    + eapply IH; [exact Er|]. left. destruct Hn as [Hn|[Hn _]].
+      * cbn [no_txt forallb] in Hn. apply andb_prop in Hn. tauto.
+      * injection Hn as -> ->. reflexivity.
+Qed.
+
+(* ================= typed level ================= *)
+Definition wf_typed (m : mnem) (vs : list fval) : Prop :=
+  wf_vals (layout_for m vs) vs /\
+  match m with
+  | M_IPSECKEY => exists pr gw al rest, vs = V_int pr :: V_int gw :: V_int al :: rest /\ gw <= 3
+  | M_OPT => False          (* OPT is carried by the packet header (Packet.popt), see PacketProofs *)
+  | _ => True
+  end.
+
+Lemma layouts_ok : forall m, lay_ok (layout_of m) = true.
+Proof. destruct m; reflexivity. Qed.
+Lemma ipseckey_layouts_ok : forall gw l, ipseckey_layout gw = Some l -> lay_ok l = true /\ ends_data l = true.
+Proof.
+  intros gw l H. unfold ipseckey_layout in H.
+  destruct gw as [|[[|[]|]|[|[]|]|]]; try discriminate; injection H as <-; split; reflexivity.
+Qed.
+
+Theorem typed_roundtrip : forall m vs pre, wf_typed m vs ->
+  parse_typed m (pre ++ enc_layout (layout_for m vs) vs) (len pre)
+  = Ok (vs, len pre + len (enc_layout (layout_for m vs) vs)).
+Proof.
+  intros m vs pre [Hwf Hm].
+  assert (G : forall lay, lay_ok lay = true -> wf_vals lay vs ->
+              parse_layout lay (pre ++ enc_layout lay vs) (len pre) = Ok (vs, len pre + len (enc_layout lay vs))).
+  { intros lay Hok Hw. pose proof (layout_roundtrip lay vs pre [] Hok Hw (fun _ => eq_refl)) as R.
+    rewrite app_nil_r in R. exact R. }
+  destruct m; try contradiction;
+    try (cbn [parse_typed]; apply G; [apply layouts_ok|exact Hwf]).
+  (* IPSECKEY *)
+  destruct Hm as (pr & gw & al & rest & -> & Hgw). cbn [parse_typed layout_for] in *.
+  destruct (ipseckey_layout gw) as [lay|] eqn:El.
+  2:{ unfold ipseckey_layout in El. destruct gw as [|[[|[]|]|[|[]|]|]]; try discriminate; lia. }
+  assert (Hshape : exists r, lay = F_be 1 :: F_be 1 :: F_be 1 :: r).
+  { unfold ipseckey_layout in El. destruct gw as [|[[|[]|]|[|[]|]|]]; try discriminate; injection El as <-; eauto. }
+  destruct Hshape as (r & ->). cbn [wf_vals wf_fld] in Hwf. destruct Hwf as (Hp & Hg & Ha & Hr).
+  cbn [enc_layout enc_fld]. rewrite !len_app, !len_be_enc.
+  destruct (len pre + (N.of_nat 1 + (N.of_nat 1 + (N.of_nat 1 + len (enc_layout r rest)))) <? len pre + 3) eqn:E; [lia|].
+  assert (B : byte_at (pre ++ be_enc 1 pr ++ be_enc 1 gw ++ be_enc 1 al ++ enc_layout r rest) (len pre + 1) = Some gw).
+  { rewrite byte_at_skip. cbn [be_enc app]. rewrite byte_at_cons1, to_N_bN. f_equal.
+    change (256 ^ N.of_nat 0) with 1. rewrite N.div_1_r. apply N.mod_small. exact Hg. }
+  rewrite B, El.
+  pose proof (G (F_be 1 :: F_be 1 :: F_be 1 :: r)) as R. cbn [enc_layout enc_fld] in R.
+  rewrite R; [rewrite !len_app, !len_be_enc; reflexivity| |cbn [wf_vals wf_fld]; tauto].
+  apply (ipseckey_layouts_ok gw). exact El.
+Qed.
+
+Theorem typed_len : forall m vs, wf_typed m vs -> len (enc_layout (layout_for m vs) vs) = len_layout (layout_for m vs) vs.
+Proof. intros m vs [H _]. apply len_enc_layout. exact H. Qed.
+
+(* LOC: a version other than 0 is rejected *)
+Lemma loc_version_rejected d p v : byte_at d p = Some v -> v <> 0 -> exists e, parse_typed M_LOC d p = Err e.
+Proof.
+  intros Hb Hv. cbn [parse_typed layout_of parse_layout parse_fld]. rewrite be_at_1, Hb.
+  destruct (v =? 0) eqn:E0; [lia|]. eauto.
+Qed.
+
+(* ================= the code's layouts are the RFC layouts ================= *)
+Require Import SD.Spec.
+Theorem layouts_are_rfc : forall m vs, m <> M_OPT -> map erase_fld (layout_for m vs) = rfc_layout m vs.
+Proof.
+  intros m vs Hm. destruct m; try reflexivity; try contradiction.
+  cbn [layout_for rfc_layout]. destruct vs as [|v0 [|[gw| | |] r]]; try reflexivity.
+  destruct gw as [|[[|[]|]|[|[]|]|]]; reflexivity.
+Qed.
+Lemma opt_rdata_layout_is_rfc : map erase_fld (layout_of M_OPT) = rfc_layout M_OPT [].
+Proof. reflexivity. Qed.
+
+(* the wire encoding does not depend on the compress flag *)
+Lemma enc_layout_erase : forall lay vs, enc_layout (map erase_fld lay) vs = enc_layout lay vs.
+Proof.
+  induction lay as [|f r IH]; intros vs; destruct vs as [|v vr]; cbn [map enc_layout]; try reflexivity.
+  rewrite IH. f_equal. destruct f; reflexivity.
+Qed.
+
+(* forbidden types have no compressing name field; RFC 1035 types compress all their names *)
+Definition has_compressing (lay : layout) : bool := existsb (fun f => match f with F_name true => true | _ => false end) lay.
+Definition all_names_compress (lay : layout) : bool := forallb (fun f => match f with F_name false => false | _ => true end) lay.
+Theorem forbidden_never_compress : forall m vs, forbids_compression m = true -> has_compressing (layout_for m vs) = false.
+Proof.
+  intros m vs H. destruct m; try discriminate; try reflexivity.
+  cbn [layout_for]. destruct vs as [|v0 [|[gw| | |] r]]; try reflexivity.
+  destruct (ipseckey_layout gw) as [l|] eqn:E; [|reflexivity].
+  unfold ipseckey_layout in E. destruct gw as [|[[|[]|]|[|[]|]|]]; try discriminate; injection E as <-; reflexivity.
+Qed.
+Theorem rfc1035_names_compress : forall m vs, rfc1035_compressed m = true -> all_names_compress (layout_for m vs) = true.
+Proof. intros m vs H. destruct m; try discriminate; reflexivity. Qed.
